@@ -64,6 +64,7 @@ K_HANG = "callable-alias-pipeline-intermittent-hang"
 K_WAIT = "blocked-producer-is-waited-for-before-its-consumer-is-torn-down"
 K_ABORT = "end-left-early-keeps-the-last-handlers"
 K_VSUSP = "captured-command-leaves-the-suspend-character-disabled"
+K_STDERR_CLOSED = "o2e-capture-start-failure-closes-session-stderr"
 K_STD = "overlapping-alias-threads-leave-sys-stdout-on-the-dispatcher"
 
 SIGS = ["SIGINT", "SIGTSTP", "SIGQUIT", "SIGWINCH"]
@@ -138,12 +139,18 @@ def session():
     _S.update(execer=execer, XSH=XSH, root=str(root))
     _install_tracer()
     # warm up: imports, caches, lazy objects (their one-off descriptors must not count)
-    for src in ("echo warm | cat > /dev/null", "x = $(echo warm)", "t none small 0 0 | t all none 0 0", "x = !(echo warm)\nx.end()"):
+    std0 = (sys.stdin, sys.stdout, sys.stderr)
+    for src in ("echo warm | cat > /dev/null", "x = $(echo warm)", "t none small 0 0 0", "x = !(echo warm)\nx.end()"):
         try:
             execer.exec(src + "\n", glbs={"__name__": "xv"}, locs=None, filename="<c09-warm>")
         except BaseException:  # noqa: BLE001
             pass
     _reset()
+    # every case must start from a pristine session: if the warm-up itself ran into one of the known races, undo it here
+    sys.stdin, sys.stdout, sys.stderr = std0
+    for nm, fd, mode in (("stdout", 1, "w"), ("stderr", 2, "w")):
+        if getattr(sys, nm).closed:
+            setattr(sys, nm, open(fd, mode, closefd=False))
     return _S
 
 
@@ -553,7 +560,10 @@ def _run_case_here(item):
     faulthandler.dump_traceback_later(max(5, item.get("timeout", 40) - 8), repeat=False, file=hf, exit=False)
     real = [sys.stdin, sys.stdout, sys.stderr]
 
+    thread_excs = []
+
     def on_thread_exc(args):
+        thread_excs.append(f"{args.exc_type.__name__}: {args.exc_value} in {type(args.thread).__name__}")
         try:
             hf.write(f"THREAD-EXC {args.exc_type.__name__}: {args.exc_value} in {type(args.thread).__name__}\n")
             hf.flush()
@@ -672,6 +682,7 @@ def _run_case_here(item):
     faulthandler.cancel_dump_traceback_later()
     signal.alarm(0)
     out["real_std_closed"] = [bool(o.closed) for o in real]
+    out["thread_excs"] = thread_excs[:5]
     hf.close()
     _Trace.on = False
     _Trace.events, _Trace.specs = [], []
@@ -942,6 +953,15 @@ def judge(ctx, stream, case, obs, variant):
     m = model(ctx, case, variant, aborts=aborts)
     r0 = obs["reps"][0]
     d = r0["delta"]
+    # C06's mechanism struck inside this case: an alias stage closed the session's REAL sys.stderr / sys.stdout object and an
+    # alias thread died of it (ValueError in safe_flush) before publishing its return code and closing its pipe's write end:
+    # whatever else is off in this case follows from that, and the ledger (which has no dying threads) is not asked
+    died = [e for e in obs.get("thread_excs") or [] if "I/O operation on closed file" in e and "ProcProxyThread" in e]
+    if (any(obs.get("real_std_closed") or []) or died) and any(s["kind"] == "thr" for s in case["stages"]):
+        ctx.count("case-hit-by/" + K_HANG)
+        ctx.spec_failure(info | {"what": "std-closed"}, {"real_std_closed": obs.get("real_std_closed"), "alias_threads_died": died, "state_after": {k: v for k, v in d.items() if k not in ("env", "osenv")}},
+                         "the session's real sys.stdin / sys.stdout / sys.stderr object was closed by the command (an alias thread died of it)", K_HANG)
+        return m, False
     ctx.count(f"why/{m['why']}")
     if aborts:
         ctx.count("end-left-early/" + (obs["raised"][0] if obs["raised"] else "returned"))
@@ -1437,7 +1457,16 @@ def replay_known(ctx):
             continue
         case = w["case"]
         case["src"] = render(case)
-        obs = run_batch([to_item(case, w.get("reps", 1))])[0]
+        for attempt in range(4):
+            obs = run_batch([to_item(case, w.get("reps", 1))])[0]
+            has_alias = any(s_["kind"] == "thr" for s_ in case["stages"])
+            hit = is_hang(obs) or (has_alias and isinstance(obs, dict) and (any(obs.get("real_std_closed") or []) or obs.get("thread_excs")))
+            if not hit:
+                break
+            # the intermittent wedge (K_HANG) struck the witness itself: note it and run the witness again
+            ctx.count("witness-rerun-after/" + K_HANG)
+            if is_hang(obs) and not all(hang_mechanism(obs).values()):
+                break
         if is_hang(obs) or (isinstance(obs, dict) and "__exc__" in obs):
             raise common.InfraError(f"C09 known-finding witness did not run: {str(obs)[:500]}")
         r0 = obs["reps"][0]
@@ -1456,13 +1485,17 @@ def replay_known(ctx):
             fails = bool(r0.get("wait_timeouts")) and bool(d.get("children"))
         elif f["key"] == K_VSUSP:
             fails = bool(((obs.get("tty") or {}).get("0") or {}).get("attr_diff"))
+        elif f["key"] == K_STDERR_CLOSED:
+            fails = any(obs.get("real_std_closed") or [])
         else:
             fails = bool(d)
         if f["key"] in flags and f.get("status") == "open":
             flags[f["key"]] = not fails
         ctx.replayed(f["key"], fails, {"delta": d, "held": obs["held"], "sigint": obs["sigint"], "wait_timeouts": r0.get("wait_timeouts")})
-        if fails and f.get("status") == "open":
-            ctx.spec_failure({"stream": "known-witness", "source": case["src"]}, {"delta": d, "held": obs["held"]}, f["what"], f["key"])
+        if fails:
+            # an open finding that still fails is a known finding; a FIXED one that fails again is a violation (its key is not open)
+            ctx.spec_failure({"stream": "known-witness", "source": case["src"], "case": case, "status": f.get("status")},
+                             {"delta": d, "held": obs["held"], "real_std_closed": obs.get("real_std_closed")}, f["what"], f["key"])
     known_open = {f["key"] for f in ctx.known if f.get("status") == "open"}
     # a finding that is not listed as open is taken as repaired
     return (flags[K_LATE] or K_LATE not in known_open, flags[K_SIGINT] or K_SIGINT not in known_open, flags[K_HELD] or K_HELD not in known_open)
@@ -1485,8 +1518,8 @@ def run(ctx):
     ctx.trusted_base += ["the correspondence harness xv/props/c09.py (forked workers, /proc sampling, recording wrappers around os.pipe / os.openpty / os.close / open / Popen.wait)"]
     variant = replay_known(ctx)
     ctx.extra["model_variant"] = {"teardown": variant[0], "lifo": variant[1], "closeOwn": variant[2]}
-    stream_shapes(ctx, ctx.n(360, 4200), variant)
-    stream_tty(ctx, ctx.n(100, 1100), variant)
+    stream_shapes(ctx, ctx.n(360, 3600), variant)
+    stream_tty(ctx, ctx.n(100, 900), variant)
     stream_repetition(ctx, ctx.n(11, 33), ctx.n(40, 200), variant)
     stream_channels(ctx, ctx.n(150, 3000))
 
@@ -1506,17 +1539,23 @@ def replay(ctx, path):
         print("re-run ./check C09 with the same seed for this stream")
         return common.EXIT_INFRA
     case["src"] = render(case)
+    variant = replay_known(ctx)
+    ctx.spec_failures.clear()
     obs = run_batch([to_item(case, c.get("reps", 1))])[0]
-    print("source:", case["src"])
-    if is_hang(obs):
-        print(f"the command did not return\n{obs.get('stacks', '')[-2000:]}\nVIOLATION property={ID} replay={path}")
-        return common.EXIT_VIOLATION
+    print("source:", case["src"], "(interactive, on a pty)" if case.get("tty") else "")
     if isinstance(obs, dict) and "__exc__" in obs:
         print("worker error:", obs["__exc__"])
         return common.EXIT_INFRA
-    d = obs["reps"][-1]["delta"]
-    print("state after vs before:", json.dumps(d, default=repr)[:1500])
-    print("while the exception was held:", obs["held"], " SIGINT ->", obs["sigint"])
-    bad = bool(d) or obs["sigint"] != "KeyboardInterrupt" or any(obs["held"])
-    print(f"VIOLATION property={ID} replay={path}" if bad else "property holds on this command")
+    if not is_hang(obs):
+        print("state after vs before:", json.dumps(obs["reps"][-1]["delta"], default=repr)[:1500])
+        print("while the exception was held:", obs["held"], " SIGINT ->", obs["sigint"], " terminal:", obs.get("tty"))
+    judge(ctx, "replay", case, obs, variant)
+    open_keys = {f["key"] for f in ctx.known if f.get("status") == "open"}
+    new = [f for f in ctx.spec_failures if f["key"] not in open_keys]
+    for f in ctx.spec_failures:
+        print(("NEW: " if f["key"] not in open_keys else f"known finding {f['key']}: ") + f["why"], json.dumps(f["observed"], default=repr)[:600])
+    for d in ctx.disagreements:
+        print("ledger disagrees:", json.dumps(d["impl"], default=repr)[:300], "vs", json.dumps(d["model"], default=repr)[:300])
+    bad = bool(new)
+    print(f"VIOLATION property={ID} replay={path}" if bad else "property holds on this command (known findings aside)")
     return common.EXIT_VIOLATION if bad else common.EXIT_OK
